@@ -43,6 +43,16 @@ func NewHMACAuth(secrets [][]byte) *HMACAuth {
 	return a
 }
 
+// InheritReplayState makes a share prev's nonce cache, so that nonces already
+// honoured by prev stay rejected by a. It is used when an authenticator is
+// rebuilt for the same route on a configuration reload.
+func (a *HMACAuth) InheritReplayState(prev *HMACAuth) {
+	if a == nil || prev == nil || prev.nonce == nil {
+		return
+	}
+	a.nonce = prev.nonce
+}
+
 // Verify checks:
 // - timestamp header is present and within tolerance
 // - nonce header is present and not reused within tolerance window
